@@ -56,7 +56,8 @@ let run_pipeline (parts : string list) : string =
 
 (* n sequential exchanges, each answered at once, on a connection whose first id is q0.  The model covers
    connection 0; exchanges it refuses (EoL) are the ones the real transport moves to a fresh connection
-   (counted as rest, expected to start at id 0 there and to succeed). *)
+   (counted as rest, expected to succeed there; with the preset hook every connection starts at q0, so the
+   first id seen on connection 1 is q0 again). *)
 let run_pipeline_eol (parts : string list) : string =
   let f = fields parts in
   let tcp = (fld f "net" = "tcp") in
@@ -84,7 +85,7 @@ let run_pipeline_eol (parts : string list) : string =
     incr i) outs;
   let s x = if x < 0 then "-" else string_of_int x in
   Printf.sprintf "n0=%d first=%s last=%s mono=%d retired=%d rest=%d rfirst=%s ok=%d bad=%d err=%d"
-    !n0 (s !first) (s !last) (b2i !mono) (b2i closed) !rest (if !rest > 0 then "0" else "-")
+    !n0 (s !first) (s !last) (b2i !mono) (b2i closed) !rest (if !rest > 0 then string_of_int (ifld f "q0") else "-")
     (!ok + !rest) !bad !err
 
 let () = register "pipeline" run_pipeline
